@@ -44,9 +44,11 @@ func (g *flowGen) node(depth int, handler bool) {
 	workers := int(r.pick(1, 1, 2, 3, 4))
 	buf := int(r.pick(1, 1, 2, 3))
 	discard := false
-	if g.prop == "C04" || g.prop == "C16" {
+	lat := 0
+	if g.prop == "C04" || g.prop == "C16" || g.prop == "C02" {
 		discard = r.chance(20)
 	}
+
 	disabled := !handler && r.chance(7)
 	wP := r.intn(40) + 25
 	wT := r.intn(20)
@@ -60,7 +62,10 @@ func (g *flowGen) node(depth int, handler bool) {
 	}
 	maxFan := r.intn(3) + 1
 	amode := r.intn(4)
-	lat := int(r.pick(0, 0, 20, 100, 300))
+	lat = int(r.pick(0, 0, 20, 100, 300))
+	if g.prop == "C02" && handler {
+		lat = int(r.pick(0, 100, 300, 300))
+	}
 	nc := 0
 	if !handler && depth < 4 && g.count < 12 {
 		nc = r.intn(3)
@@ -98,6 +103,7 @@ func genFlow(prop string, r *rng, n int, tier string, emit func(string)) {
 	if prop == "C04" || prop == "C16" {
 		emit("tree 17 1 N fanout 1 1 0 0 0 0 0 0 3 0 0 2 0 N sync 1 1 1 0 100 0 0 0 1 0 300 0 0 N sync 1 1 0 0 100 0 0 0 1 0 0 0 0 ; stream 30 ; opts stop=- gm=4")
 		emit("tree 19 1 N sync 2 1 0 0 20 0 0 80 1 0 0 0 1 N hsync 1 1 1 0 100 0 0 0 1 0 300 0 0 ; stream 40 ; opts stop=- gm=4")
+		emit("tree 23 1 N sync 4 2 0 0 100 0 0 0 1 0 0 2 0 N sync 1 1 1 0 100 0 0 0 1 0 0 0 0 N sync 1 2 0 0 100 0 0 0 1 0 0 0 0 ; stream 50 ; opts stop=- gm=4 gate=1")
 	}
 	for i := 0; i < n; i++ {
 		g := &flowGen{r: r, prop: prop}
@@ -113,7 +119,21 @@ func genFlow(prop string, r *rng, n int, tier string, emit func(string)) {
 		if r.chance(30) && ns > 0 {
 			stop = strconv.Itoa(r.intn(ns))
 		}
-		emit(fmt.Sprintf("tree %d %d %s ; stream %d ; opts stop=%s gm=%d", r.intn(100000), nroots, strings.Join(g.parts, " "), ns, stop, r.pick(1, 2, 4, 16)))
+		gate := ""
+		if prop == "C04" && r.chance(35) {
+			// stall one discarding node until the source has finished: nothing may wait for it
+			var cands []int
+			for k := 0; k*15 < len(g.parts); k++ {
+				if g.parts[k*15+4] == "1" && g.parts[k*15+5] == "0" {
+					cands = append(cands, k)
+				}
+			}
+			if len(cands) > 0 {
+				gate = fmt.Sprintf(" gate=%d", cands[r.intn(len(cands))])
+				stop = "-"
+			}
+		}
+		emit(fmt.Sprintf("tree %d %d %s ; stream %d ; opts stop=%s gm=%d%s", r.intn(100000), nroots, strings.Join(g.parts, " "), ns, stop, r.pick(1, 2, 4, 16), gate))
 	}
 }
 
@@ -205,6 +225,7 @@ func execFlow(input string) string {
 	nstream := 0
 	stop := -1
 	gm := 4
+	gateIdx := -1
 	for _, seg := range segs[1:] {
 		f := strings.Fields(seg)
 		if len(f) == 2 && f[0] == "stream" {
@@ -217,6 +238,9 @@ func execFlow(input string) string {
 				}
 				if strings.HasPrefix(o, "gm=") {
 					gm, _ = strconv.Atoi(strings.TrimPrefix(o, "gm="))
+				}
+				if strings.HasPrefix(o, "gate=") {
+					gateIdx, _ = strconv.Atoi(strings.TrimPrefix(o, "gate="))
 				}
 			}
 		}
@@ -233,6 +257,11 @@ func execFlow(input string) string {
 		src.events = append(src.events, fmt.Sprintf("e%d", i))
 	}
 	currentSource = src
+	var gate chan struct{}
+	if gateIdx >= 0 && gateIdx < len(ft.specs) {
+		gate = make(chan struct{})
+		ft.specs[gateIdx].gate = gate
+	}
 	setScenario(ft.specs)
 	defer clearScenario(ft.specs)
 	cfg := config.Config{ApplicationName: "verif", MetricsPrefix: "verif", Source: &node.SourceConfig{Name: "vsource", ID: fmt.Sprintf("r%d_src", run)},
@@ -248,6 +277,22 @@ func execFlow(input string) string {
 		close(done)
 	}()
 	returned := true
+	progress := ""
+	if gate != nil {
+		// while the discarding node is stalled, the source must still be able to hand over its whole stream
+		ok := false
+		for t0 := time.Now(); time.Since(t0) < 3*time.Second; time.Sleep(2 * time.Millisecond) {
+			src.mu.Lock()
+			fin := src.emitted == nstream
+			src.mu.Unlock()
+			if fin {
+				ok = true
+				break
+			}
+		}
+		progress = " progress=" + b01(ok)
+		close(gate)
+	}
 	select {
 	case <-done:
 	case <-time.After(12 * time.Second):
@@ -277,5 +322,5 @@ func execFlow(input string) string {
 	src.mu.Lock()
 	emitted := src.emitted
 	src.mu.Unlock()
-	return strings.Join(parts, " ") + fmt.Sprintf(" emitted=%d returned=%s ret=%d", emitted, b01(returned), ret)
+	return strings.Join(parts, " ") + fmt.Sprintf(" emitted=%d returned=%s ret=%d%s", emitted, b01(returned), ret, progress)
 }
